@@ -414,6 +414,42 @@ Proof.
     split; [exact Hab2|]. split; [split; [reflexivity|exact Hi2]|]. split; [reflexivity|eexists; reflexivity].
 Qed.
 
+(* length is preserved by the stable sort: no waiter is lost or duplicated by the representation switch *)
+Lemma spec_insert_length x l : length (spec_insert pf x l) = S (length l).
+Proof. induction l as [|y r IH]; cbn; auto. destruct (sprio pf y <? sprio pf x)%N; cbn; auto. Qed.
+
+Lemma spec_sort_from_length acc l : length (spec_sort_from acc l) = (length acc + length l)%nat.
+Proof.
+  unfold spec_sort_from. revert acc. induction l as [|x l IH]; intros acc; cbn [fold_left length]; [lia|].
+  rewrite IH, spec_insert_length. lia.
+Qed.
+
+Lemma spec_sort_length l : length (spec_sort l) = length l.
+Proof. unfold spec_sort. rewrite spec_sort_from_length. reflexivity. Qed.
+
+(* THEOREM (mixed representation): when the wait queue consists of a non-empty inline part fastQueue[fastIndex:]
+   FOLLOWED BY a plain ring (the inline array overflowed at its maximal capacity), RePushPriorityRingQueue yields the
+   stable priority sort of "inline part ++ ring part": both parts are carried over, the ring part after the inline part,
+   and the length is the sum of the two lengths. *)
+Theorem wq_repush_mixed st q s r :
+  (forall j, prio_of st j = pf j) -> wq_inv q ->
+  w_fast q = Some s -> w_ring q = RPlain r -> 0 <= w_findex q < Z.of_nat (length (s_data s)) ->
+  Forall is_some (skipn (Z.to_nat (w_findex q)) (s_data s)) -> Forall is_some (ring_abs r) ->
+  exists q' p, wq_repush st q = Ok q' /\ w_ring q' = RPrio p /\ w_findex q' = -1 /\ wq_inv q' /\
+    wq_abs q' = spec_sort (skipn (Z.to_nat (w_findex q)) (s_data s) ++ ring_abs r) /\
+    wq_len q' = Z.of_nat (length (skipn (Z.to_nat (w_findex q)) (s_data s))) + Z.of_nat (length (ring_abs r)).
+Proof.
+  intros Hpf Hinv Ef Er Hidx Hfa Hra.
+  assert (Eabs : wq_abs q = skipn (Z.to_nat (w_findex q)) (s_data s) ++ ring_abs r).
+  { unfold wq_abs, fast_abs. rewrite Ef, Er. destruct (Z.leb_spec 0 (w_findex q)); [reflexivity|lia]. }
+  assert (Hpl : plain_mode q). { unfold plain_mode. intros p. rewrite Er. discriminate. }
+  destruct (wq_repush_abs st q Hpf Hinv Hpl) as (q' & E & A & I' & F' & p & R').
+  { rewrite Eabs. apply Forall_app. split; assumption. }
+  exists q', p. split; [exact E|]. split; [exact R'|]. split; [exact F'|]. split; [exact I'|].
+  rewrite Eabs in A. split; [exact A|].
+  rewrite (wq_len_abs q' I'), A, spec_sort_length, app_length. lia.
+Qed.
+
 End Wait.
 
 (* ====================================================================================================== *)
